@@ -60,12 +60,24 @@ func runSolver(cmd []string, file string, timeoutS int) (answers []string, raw s
 	ctx, cancel := context.WithTimeout(context.Background(), time.Duration(timeoutS+2)*time.Second)
 	defer cancel()
 	args := append([]string{}, cmd[1:]...)
+	// the time limit applies to each check-sat; the process as a whole gets a proportionally larger budget
+	n := countChecks(file)
+	overall := timeoutS * n
+	if overall > 8*timeoutS {
+		overall = 8 * timeoutS
+	}
+	if overall < timeoutS {
+		overall = timeoutS
+	}
 	switch cmd[0] {
 	case "z3", "z3-new":
-		args = append(args, fmt.Sprintf("-T:%d", timeoutS))
+		args = append(args, fmt.Sprintf("-t:%d", timeoutS*1000), fmt.Sprintf("-T:%d", overall))
 	case "cvc5":
-		args = append(args, fmt.Sprintf("--tlimit=%d", timeoutS*1000))
+		args = append(args, fmt.Sprintf("--tlimit-per=%d", timeoutS*1000), fmt.Sprintf("--tlimit=%d", overall*1000))
 	}
+	ctx2, cancel2 := context.WithTimeout(context.Background(), time.Duration(overall+2)*time.Second)
+	defer cancel2()
+	ctx = ctx2
 	args = append(args, file)
 	start := time.Now()
 	c := exec.CommandContext(ctx, cmd[0], args...)
@@ -287,4 +299,16 @@ func solveAll(results []*UnitResult, cfg *SolverCfg) {
 	}
 	close(ch)
 	wg.Wait()
+}
+
+func countChecks(file string) int {
+	data, err := os.ReadFile(file)
+	if err != nil {
+		return 1
+	}
+	n := strings.Count(string(data), "(check-sat)")
+	if n < 1 {
+		n = 1
+	}
+	return n
 }
